@@ -39,6 +39,7 @@ def run(chk: Check, proj: Project) -> None:
     s9_optional_index(chk, proj, m)
     s10_scan_input(chk, proj, m)
     s12_gives_up_only_without_both(chk, proj, m)
+    s17_tag_name_of_every_match(chk, proj, m)
     from . import C04
     from .common import world
 
@@ -652,6 +653,101 @@ def s5(chk: Check, proj: Project, m, rule: str = "S5") -> None:
         r = proj.try_func("dependencies", q)
         if r:
             chk.ob(rule, f"dependencies:{q}:uses-guard", r[0].loc(r[1]), bool(calls(r[1], "_process_response")), "response passes through _process_response")
+
+
+def s17_tag_name_of_every_match(chk: Check, proj: Project, m) -> None:
+    chk.rule("S17", "the classification of an end-tag match is total on the scanner's language: the expression that extracts the tag name from a match (constant slice + lower()) evaluates to one of the names the branches compare with for EVERY string the scanner pattern matches - also for the spellings with whitespace before `>` and in upper case (members of the language are generated from the pattern constant; the extraction is evaluated on them symbolically, nothing of the package is run)")
+    import re as _re
+
+    from .markers import compiled_regex
+
+    f = m.func("_insert_js_css_to_default_locations")
+    chk.analysed(fkey(m, f))
+    loop = next((x for x in ast.walk(f) if isinstance(x, ast.For) and isinstance(x.iter, ast.Call) and isinstance(x.iter.func, ast.Attribute) and x.iter.func.attr == "finditer"), None)
+    if loop is None or not isinstance(loop.target, ast.Name):
+        chk.undecided("S17", "dependencies:_insert_js_css_to_default_locations:tag-name-total", m.loc(f), "the finditer loop was not found")
+        return
+    mv = loop.target.id
+    rx = norm(loop.iter.func.value)
+    pat, flags, _n = compiled_regex(proj, "dependencies", rx)
+    if isinstance(pat, bytes):
+        pat = pat.decode("latin-1")
+    # members of the language: every alternative x case x whitespace tail (filtered by the pattern itself)
+    cands = [f"</{nm}{ws}>" for nm in ("head", "HEAD", "Head", "body", "BODY", "Body", "html", "header") for ws in ("", " ", "\n", "\t ", "  \r\n")]
+    members = [c for c in cands if _re.fullmatch(pat, c, flags)]
+    if len(members) < 4:
+        raise AnalysisError(f"C08-S17: only {len(members)} sample members of {rx}'s language")
+    # the extraction: `<name> = <mv>[0][a:b](.lower())`
+    ext = None
+    for st in loop.body:
+        if isinstance(st, ast.Assign) and len(st.targets) == 1 and isinstance(st.targets[0], ast.Name) and any(isinstance(y, ast.Name) and y.id == mv for y in ast.walk(st.value)):
+            ext = st
+            break
+    if ext is None:
+        chk.undecided("S17", "dependencies:_insert_js_css_to_default_locations:tag-name-total", m.loc(loop), "no local is computed from the match inside the loop")
+        return
+    tn = ext.targets[0].id
+    names = {c.comparators[0].value for c in ast.walk(loop) if isinstance(c, ast.Compare) and isinstance(c.left, ast.Name) and c.left.id == tn and len(c.ops) == 1 and isinstance(c.ops[0], ast.Eq) and isinstance(c.comparators[0], ast.Constant)}
+    names |= {e.value for c in ast.walk(loop) if isinstance(c, ast.Compare) and isinstance(c.left, ast.Name) and c.left.id == tn and isinstance(c.ops[0], ast.In) for e in getattr(c.comparators[0], "elts", []) if isinstance(e, ast.Constant)}
+
+    def ev(e: ast.AST, s0: str):
+        if isinstance(e, ast.Subscript) and isinstance(e.value, ast.Name) and e.value.id == mv and isinstance(e.slice, ast.Constant) and e.slice.value == 0:
+            return s0
+        if isinstance(e, ast.Call) and isinstance(e.func, ast.Attribute) and e.func.attr == "group" and isinstance(e.func.value, ast.Name) and e.func.value.id == mv and (not e.args or (isinstance(e.args[0], ast.Constant) and e.args[0].value == 0)):
+            return s0
+        if isinstance(e, ast.Subscript):
+            base = ev(e.value, s0)
+            if base is None:
+                return None
+            sl = e.slice
+            if isinstance(sl, ast.Slice):
+                def c(x):
+                    if x is None:
+                        return None
+                    if isinstance(x, ast.UnaryOp) and isinstance(x.op, ast.USub) and isinstance(x.operand, ast.Constant) and isinstance(x.operand.value, int):
+                        return -x.operand.value
+                    ok, v = proj.try_fold(m, x)
+                    if not ok:
+                        raise ValueError
+                    return v
+                try:
+                    return base[c(sl.lower):c(sl.upper):c(sl.step)]
+                except ValueError:
+                    return None
+            ok, v = proj.try_fold(m, sl)
+            try:
+                return base[v] if ok else None
+            except Exception:
+                return None
+        if isinstance(e, ast.Call) and isinstance(e.func, ast.Attribute) and e.func.attr in ("lower", "upper", "strip", "rstrip", "lstrip", "casefold") and isinstance(e.func.value, ast.AST):
+            base = ev(e.func.value, s0)
+            if base is None:
+                return None
+            args = []
+            for a in e.args:
+                ok, v = proj.try_fold(m, a)
+                if not ok:
+                    return None
+                args.append(v)
+            return getattr(base, e.func.attr)(*args)
+        return None
+
+    bad = []
+    undec = False
+    for s0 in members:
+        r = ev(ext.value, s0)
+        if r is None:
+            undec = True
+            break
+        if r not in names:
+            bad.append((s0, r))
+    if undec or not names:
+        chk.undecided("S17", "dependencies:_insert_js_css_to_default_locations:tag-name-total", m.loc(ext), f"`{short(ext)}` is not a constant slice / case-fold of the match (or no branch compares `{tn}` with a constant)")
+        return
+    chk.paths += len(members)
+    chk.ob("S17", "dependencies:_insert_js_css_to_default_locations:tag-name-total", m.loc(ext), not bad,
+           f"`{short(ext)}` yields one of {sorted(names)} for all {len(members)} sampled members of {rx}'s language" if not bad else
+           f"`{short(ext)}` yields {bad[0][1]!r} for the match {bad[0][0]!r}, which {rx} accepts, and no branch knows that name: a document whose end tag is written with whitespace before `>` makes render_dependencies raise (or skip the insertion) instead of inserting the dependencies there")
 
 
 MANIFEST = {
